@@ -36,8 +36,42 @@ def mk_clauses(prefix: str, items: Optional[List[ClauseSrc]], default_props=()) 
             node = ast.parse(text.strip(), mode="eval").body
         except SyntaxError as e:
             raise SyntaxError(f"clause {name}: {text!r}: {e}")
+        bad = quantifier_in_bad_position(node)
+        if bad:
+            raise SyntaxError(f"clause {name}: {bad} -- quantifiers are eliminated by skolemisation / instantiation without tracking "
+                              f"polarity: they may only occur at the top level, under and/or, or in the consequent of implies()")
         out.append(Clause(name, text, props, node))
     return out
+
+
+def quantifier_in_bad_position(node) -> Optional[str]:
+    """forall_int / exists_int are only sound in positive positions of a clause (see spec._quant)"""
+    QUANT = ("forall_int", "exists_int")
+
+    def has_quant(n):
+        return any(isinstance(x, ast.Call) and isinstance(x.func, ast.Name) and x.func.id in QUANT for x in ast.walk(n))
+
+    def walk(n, positive):
+        if not has_quant(n):
+            return None
+        if isinstance(n, ast.BoolOp):
+            for v in n.values:
+                r = walk(v, positive)
+                if r:
+                    return r
+            return None
+        if isinstance(n, ast.UnaryOp) and isinstance(n.op, ast.Not):
+            return walk(n.operand, not positive)
+        if isinstance(n, ast.Call) and isinstance(n.func, ast.Name):
+            if n.func.id == "implies" and len(n.args) == 2:
+                return walk(n.args[0], not positive) or walk(n.args[1], positive)
+            if n.func.id in QUANT and len(n.args) == 2:
+                if not positive:
+                    return f"{n.func.id} in a negative position"
+                return walk(n.args[1], positive)
+        return f"quantifier inside {type(n).__name__} (neither and/or/not/implies): position unknown"
+
+    return walk(node, True)
 
 
 @dataclass
